@@ -132,6 +132,31 @@ PROPS["C20"] = {
 }
 
 
+ALGO_MODELLED = CORE_MODELLED + ["modelled, not verified: the iteration order of HashSet/HashMap (the closure theorem holds for every drain order; the mapping table is only looked up), anyhow error texts (the ids after 'missed:' are extracted)"]
+PROPS["C11"] = {
+    "quick": [("merge", 400, 0)],
+    "thorough": [("merge", 12000, 0)],
+    "rule": "pairs of random rooted labelled trees (1..7 vertices each, 1..4 labels so that paths overlap, random data placement in both Hex representations, random injections of ids into the capacity, some data of the left tree already read), every choice of `left`; observe before and after, then every present vertex of the left graph is read (drain) and compared with the reference run of the same algorithm; non-trivial = a history whose merge created or matched at least one vertex (>= 5 judged calls)",
+    "nontrivial": "any5",
+    "modelled": ALGO_MODELLED,
+    "partial": ["Props.C11.second_pass_is_noop_partial (stated for the kids of the root; inner nodes by monotonicity, not yet assembled)"],
+}
+PROPS["C12"] = {
+    "quick": [("mergebroken", 400, 0), ("merge", 100, 0)],
+    "thorough": [("mergebroken", 12000, 0), ("merge", 2000, 0)],
+    "rule": "right graphs made of a tree plus an isolated vertex / a detached two-vertex sub-tree / an isolated vertex with data / a `right` that is not the root; every left tree and `left`; Ok is accepted only if every present vertex of the right graph is reachable from `right`, on Err the named ids must be exactly the unreachable ones; non-trivial = >= 5 judged calls",
+    "nontrivial": "any5",
+    "modelled": ALGO_MODELLED,
+}
+PROPS["C13"] = {
+    "quick": [("slice", 200, 40)],
+    "thorough": [("slice", 6000, 60)],
+    "rule": "digraphs of 2..14 vertices built through real calls (cycles, shared targets, parallel labels up to N = 16), four slices per graph from random start vertices with random rejection tables (edges rejected on one path and accepted on another included); the sliced graph and the source are observed afterwards; non-trivial = a history with >= 5 judged calls; the number of slices whose kept part contains a back edge is reported",
+    "nontrivial": "any5",
+    "modelled": ALGO_MODELLED,
+}
+
+
 def nontrivial(prop, h):
     first, last, coll, readds, overw, nextids, judged = h[:7]
     kind = PROPS[prop].get("nontrivial", "any")
